@@ -972,3 +972,88 @@ package client
 //@   ensures $held === old($held)
 //@   ensures [C19] result == len(c.caps)
 //@ end
+
+// ---------------------------------------------------------------------------
+// C17: the client knows its own nick
+
+// The configured nick generator: any function (deterministic).
+//@ specfn newNickFn(s string) string
+//@ func field:Config.NewNick
+//@   params old string
+//@   attr assumed, pure
+//@   ensures result === newNickFn(old)
+//@ end
+
+//@ func (*Line).argslen
+//@   property C17
+//@   requires line != nil
+//@   modifies $log
+//@   ensures result <==> len(line.Args) > minlen
+//@ end
+
+// srvNick(conn, srv): the client's idea of its nick is srv - in the config
+// when tracking is off, in the tracker when it is on - and Config().Me is set.
+//@ pred srvNick(conn *Conn, srv string) := conn.cfg.Me != nil
+//@     && (conn.st == nil ==> conn.cfg.Me.Nick == srv) && (conn.st != nil ==> trkMe($trk) == srv)
+
+//@ func (*Conn).Me
+//@   property C17
+//@   safety C17
+//@   requires connOK(conn) && (conn.st == nil ==> conn.cfg.Me != nil)
+//@   modifies conn.cfg.Me
+//@   ensures result != nil && result == conn.cfg.Me
+//@   ensures conn.st != nil ==> result.Nick == trkMe($trk)
+//@   ensures conn.st == nil ==> result == old(conn.cfg.Me)
+//@ end
+
+// 433: the refused nick is always answered by NICK <generator(refused)>; the
+// client adopts the new nick exactly when the refused one was its current one
+// (registration phase: nobody else is tracked yet).
+//@ func (*Conn).h_433
+//@   property C17
+//@   safety C17
+//@   ghost srv string
+//@   requires connInv(conn) && line != nil && len(line.Args) >= 2 && srvNick(conn, srv) && conn.cfg.NewNick != nil
+//@   requires conn.st != nil ==> (forall n string :: trkHas($trk, sid(n)) ==> n == srv)
+//@   modifies $tr, $log, $trk, conn.cfg.Me, state.Nick.Nick
+//@   ensures $trlen == old($trlen) + 1 && $tr[old($trlen)] == ev("send", conn.out, cutnl("NICK " + newNickFn(line.Args[1])))
+//@   ensures conn.cfg.Me != nil
+//@   ensures line.Args[1] == srv ==> srvNick(conn, newNickFn(line.Args[1]))
+//@   ensures line.Args[1] != srv ==> srvNick(conn, srv)
+//@ end
+
+// 001: the welcome carries the nick the server assigned (first argument).
+//@ func (*Conn).h_001
+//@   property C17, C03
+//@   safety C17
+//@   ghost srv string
+//@   bind pdis int := before client.(*Conn).dispatch 1 $trlen
+//@   bind ccmd string := before client.(*Conn).dispatch 1 arg1.Cmd
+//@   bind meAtDispatch string := before client.(*Conn).dispatch 1 (conn.st != nil ? trkMe($trk) : conn.cfg.Me.Nick)
+//@   bind meOK bool := before client.(*Conn).dispatch 1 (conn.cfg.Me != nil && srvNick(conn, line.Args[0]))
+//@   requires connInv(conn) && line != nil && line.Cmd == "001" && len(line.Args) >= 1 && srvNick(conn, srv)
+//@   requires conn.st != nil ==> (forall n string :: trkHas($trk, sid(n)) ==> n == srv)
+//@   modifies $tr, $wg, $log, $trk, $now, heap
+//@   ensures [C03] ccmd == "CONNECTED" && meAtDispatch == line.Args[0]
+//@   ensures [C17] meOK
+//@ end
+
+//@ func (*Conn).h_NICK
+//@   property C17
+//@   safety C17
+//@   ghost srv string
+//@   requires connOK(conn) && line != nil && len(line.Args) >= 1 && srvNick(conn, srv)
+//@   modifies state.Nick.Nick
+//@   ensures conn.st == nil && line.Nick == srv ==> srvNick(conn, line.Args[0])
+//@   ensures conn.st != nil || line.Nick != srv ==> srvNick(conn, srv)
+//@ end
+
+//@ func (*Conn).h_STNICK
+//@   property C17
+//@   safety C17
+//@   ghost srv string
+//@   requires connOK(conn) && conn.st != nil && line != nil && len(line.Args) >= 1 && srvNick(conn, srv)
+//@   modifies $trk, $log
+//@   ensures line.Nick == srv && !trkHas(old($trk), sid(line.Args[0])) ==> srvNick(conn, line.Args[0])
+//@   ensures line.Nick != srv ==> srvNick(conn, srv)
+//@ end
